@@ -25,7 +25,10 @@ What a run does, against the CURRENT working tree of the crate:
  4. compares: the model's verdict on a table entry predicts rustc's verdict on the entry's attack
     probe (entry acceptable -> rejected; entry violating -> accepted and, when run, unsafe); a
     misuse probe must be rejected and a legitimate twin must compile and run safely whatever the
-    table says.  A violating entry is a problem with `failing_input: True` whose replay body is the
+    table says.  A violating entry that a probe DEMONSTRATES (verdict flipped, or the run misbehaves)
+    is a problem with `failing_input: True` whose replay body is that program; a violating entry
+    without a demonstrating program is `failing_input: False` (./check then prints the VIOLATION line
+    with `no-failing-input-found`).  (Older wording:) a violating entry … replay body is the
     client program (when one exists); a prediction / compiler mismatch is a correspondence
     failure (`failing_input: False`) unless the accepted program also demonstrates unsafety.
     C16 thorough: the extraction + completeness check is repeated for `--no-default-features`
@@ -155,11 +158,15 @@ MODEL_OF = {
     "CallGraph": ["Model/CallGraphM"],
     "BrandFlow": ["Model/BrandFlow"],
     "PacingConsts": ["Model/Metrics"],
+    "MacroImpls": ["Model/MacroImpls"],
 }
-PROP_TABLE = {"C09": "PacingConsts", "C10": "PacingConsts", "C12": "BrandFlow", "C13": "DerefWriteTable", "C16": "CollectTable", "C19": "SigTable", "C03": "CallGraph", "C20": "CallGraph"}
+PROP_TABLE = {"MT": "MacroImpls", "C09": "PacingConsts", "C10": "PacingConsts", "C12": "BrandFlow", "C13": "DerefWriteTable", "C16": "CollectTable", "C19": "SigTable", "C03": "CallGraph", "C20": "CallGraph"}
 PROP_EXTRA = {"C03": ["Proofs/CallGraphDefs"], "C20": ["Proofs/CallGraphDefs"],
               # Props/C12s re-exports the untraced-static rule of the Collect table
-              "C12": ["Model/CollectTy", "Generated/CollectTable", "Proofs/CollectLemmas"]}
+              "C12": ["Model/CollectTy", "Generated/CollectTable", "Proofs/CollectLemmas",
+                      "Model/MacroImpls", "Generated/MacroImpls", "Proofs/MacroImplsLemmas"],
+              # Props/C16 also carries the template rule of the exported impl-generating macros
+              "C16": ["Model/MacroImpls", "Generated/MacroImpls", "Proofs/MacroImplsLemmas"]}
 PROP_ELAB = {
     "C09": ["Props/C09s"],
     "C10": ["Props/C09s"],
@@ -201,6 +208,12 @@ def cmpP (nm : String) (a b : Pacing) : List String :=
 '''
 
 EVAL = {
+    "MT": '''import GcArena.Generated.MacroImpls
+open GcArena.MacroImpls GcArena.Generated
+#eval show IO Unit from do
+  for s in violations macroImpls macroImplsUnclassified do IO.println ("VIOL " ++ s)
+  IO.println s!"INFO rows={macroImpls.length} ok={macroImpls.all Template.ok}"
+''',
     "C09": PACING_EVAL,
     "C10": PACING_EVAL,
     "C12": '''import GcArena.Generated.BrandFlow
@@ -435,6 +448,9 @@ def judge_probes(prop, probes, results, violating):
                 corr.append(dict(probe=p, result=r, failing=False,
                                  text=f"probe {p['name']} ({p['role']} for `{p['entry']}`): model predicts {predict}, rustc says {observed}"
                                       + (f" [{r['errors'][0][:160]}]" if r["errors"] else "")))
+        elif p["role"] == "use" and r["ran"] and unsafe and entry_bad:
+            for e in bad_entries:
+                by_entry.setdefault(e, []).insert(0, (p, r))
         elif p["role"] == "use" and r["ran"] and unsafe:
             corr.append(dict(probe=p, result=r, failing=True,
                              text=f"probe {p['name']}: the legitimate use of `{p['entry']}` loses the child ({r['run_out'][:120]})"))
@@ -500,6 +516,8 @@ THEOREM = {"C09": "GcArena.C09s.*_matches_source", "C10": "GcArena.C09s.*_matche
 
 
 def _theorem_for(prop, v):
+    if v.startswith("template:") or (v.startswith("unclassified: macro ") and prop in ("C12", "C16")):
+        return "GcArena.C12s.static_collect_templates_ok" if prop == "C12" else "GcArena.C16.dyn_collect_templates_ok"
     if prop in ("C09", "C10"):
         if v.startswith("pacing: Pacing::DEFAULT"):
             return "GcArena.C09s.pacing_default_matches_source"
@@ -855,6 +873,46 @@ def run(prop, tier, seed):
                 demos.update(hdemos)
             violating = violating + [v for v in hidden if v not in violating]
 
+    # C12 / C16: the client-instantiated arms of the exported impl-generating macros (static_collect!,
+    # dyn_collect!): template rows regenerated from the raw source, rule Model/MacroImpls.Template.ok
+    if prop in ("C12", "C16"):
+        t1 = time.time()
+        evm = lean_eval(cfg, "MT", cfg["gen"], out_tag="templates-" + prop)
+        timings["lean_eval_templates"] = round(time.time() - t1, 2)
+        if not evm["ok"]:
+            problem("lean-eval-templates-failed", "the macro template table (Generated/MacroImpls) could not be evaluated", False,
+                    ["lean (scratch output dir) failed:"], evm["log"].splitlines()[-40:])
+        else:
+            tv = list(dict.fromkeys(evm["violations"]))
+            if prop == "C12":   # C12 owns static_collect!; C16 reports every row
+                tv = [v for v in tv if not v.startswith("template: __dyn_collect")]
+            res["summary"]["macro_templates"] = tables["macroimpls"]["rows"]
+            res["summary"]["macro_template_violations"] = tv
+            res["evaluations"] += len(tables["macroimpls"]["rows"])
+            res["programs"] += len(tables["macroimpls"]["rows"])
+            ok_r, rlib, deps, _log = build_rlib(cfg)
+            if ok_r:
+                tp = [p_ for p_ in _load_gen().template_probes(tables["macroimpls"]) if p_["prop"] == prop]
+                tres = run_probes(cfg, tp, rlib, deps)
+                tdemos, tcorr, trows = judge_probes(prop, tp, tres, set(evm["violations"]))
+                res["evaluations"] += len(tp)
+                res["programs"] += len(tp)
+                res["disagreements_checked"] += len(tp)
+                rows = rows + trows
+                res["summary"]["macro_template_probe_outcomes"] = {p_["name"]: (("accepted; " + tres[p_["name"]]["run_out"][:120]) if tres[p_["name"]]["accepted"]
+                                                                                 else "rejected: " + (tres[p_["name"]]["errors"] or [""])[0][-160:]) for p_ in tp}
+                for c in tcorr:
+                    p_, r_ = c["probe"], c["result"]
+                    if c["failing"] and p_["entry"] in tdemos and p_["entry"] in tv:
+                        continue
+                    problem("probe-" + p_["name"], c["text"], c["failing"],
+                            [f"property {prop}: compile probe `{p_['name']}` generated from macro template row `{p_['entry']}` ({p_['role']})",
+                             f"rustc: {'accepted' if r_['accepted'] else 'rejected'}" + (f"; run: {r_['run_out'][:300]}" if r_["ran"] else ""),
+                             "replay: rustc --edition 2024 --extern gc_arena=<work/probe-target/debug/libgc_arena.rlib> -L dependency=<…/deps> <this file> && ./<binary>"],
+                            p_["src"].splitlines(), key=None)
+                demos.update(tdemos)
+            violating = violating + [v for v in tv if v not in violating]
+
     # table violations -> problems ----------------------------------------------------------------
     cg = tables.get("callgraph", {})
     if prop == "C16":
@@ -876,12 +934,16 @@ def run(prop, tier, seed):
             lines = p["src"].splitlines()
             text = f"{thm} fails for `{v}`; safe program `{p['name']}` is accepted" + (f" and unsafe when run ({r['run_out'][:100]})" if r["ran"] else "")
         else:
-            text = f"{thm} fails for `{v}`"
+            text = f"{thm} fails for `{v}` (every probe generated for this row still behaves as on an acceptable row: no failing input is exhibited)"
             if _is_tie_only(v):
                 text = f"{thm} cannot be established: {v} (the translator fails closed; no failing input is exhibited)"
                 if v.startswith(("pacing:", "default-impl:", "metrics-new:")):
                     text = f"{thm} fails: {v} — the Lean model's constant no longer mirrors src/metrics.rs (tie broke; no failing input)"
-            if prop == "C16" or v.startswith("hidden:"):
+            if v.startswith("template:"):
+                row = next((r_ for r_ in tables["macroimpls"]["rows"] if v == f"template: {r_['macro']} arm {r_['arm']}"), None)
+                lines = [f"template row: {json.dumps(row)}",
+                         "rule: NEEDS_TRACE = false / an empty trace is licensed only by `$type: 'static` on the user-supplied type; a forwarding trace must leave NEEDS_TRACE true"]
+            elif prop == "C16" or v.startswith("hidden:"):
                 ent = next((e for e in tables["collect"]["entries"] if v in ("impl: " + e["text"], "hidden: " + e["text"])), None)
                 lines = [f"table entry: {json.dumps(ent)}"] + _explain_collect(ent)
                 if ent and v.startswith("hidden:"):
@@ -921,9 +983,11 @@ def run(prop, tier, seed):
             if ent and d:
                 header.insert(2, f"offending signature: {ent['decl']}")
                 header.insert(3, f"caller-chosen lifetimes of the result: {ent['free']} (result brands {ent['out_brands']}, input brands {ent['in_brands']})")
-            problem(f"{prop}-{key}", text, bool(d) or v.startswith("hidden:"), header, lines, key=key)
+            problem(f"{prop}-{key}", text, bool(d), header, lines, key=key)
             continue
-        problem(f"{prop}-{key}", text, bool(d) or not _is_tie_only(v), header, lines, key=key)
+        # failing_input only with a demonstrating program (a probe whose verdict flipped or whose run
+        # misbehaves); a row that merely fails its table theorem is "broken obligation, no failing input"
+        problem(f"{prop}-{key}", text, bool(d), header, lines, key=key)
 
     # thorough: per-feature tables for C16 ------------------------------------------------------
     if prop == "C16" and tier == "thorough":
@@ -952,7 +1016,7 @@ def run(prop, tier, seed):
                 problem(f"lean-eval-{ft}", f"feature set `{ft}`: Lean evaluation failed", False, [f"features: {ft}"], e2["log"].splitlines()[-30:])
             for v in e2["violations"]:
                 if v not in violating:
-                    problem(f"C16-{ft}-{_slug(v)}", f"feature set `{ft}`: Collect table entry incomplete: {v}", True,
+                    problem(f"C16-{ft}-{_slug(v)}", f"feature set `{ft}`: Collect table entry incomplete: {v}", False,
                             [f"property C16, features `{ft}`: entry violates completeness", v], [v], key=f"table-{_slug(v, 70)}")
         res["summary"]["per_feature"] = per
 
